@@ -16,6 +16,17 @@ CHECKS = {
                   'that the real result equals a transcription of the property text; counterexamples are replayed in a plain interpreter.',
              note='Trusted: CrossHair path exhaustion, the order-type abstraction of float values (code only compares them), the argmin contract stub, the oracle in xh/t_c03.py.tmpl.',
              ref='3/C03'),
+ 'C09': dict(engine='X', technique='symbolic execution (CrossHair/z3) of the real get_result_item/classify with numpy.argsort replaced by its documented contract (unstable kinds: any sorting permutation, chosen symbolically; stable kinds: the stable order) + replay on the real numpy',
+             text='For 1..4 (quick) / 6 (thorough) references, every distance order type with ties, every tie order an unstable sort may return and every list length, CrossHair '
+                  'confirms that the list is the (distance, reference order) prefix with exact distances and per-distance taxa and that its head is closest_match.  A contract-level '
+                  'counterexample is reported only with an input that fails on the real numpy of this machine.',
+             note='Trusted: CrossHair path exhaustion, the numpy contract stubs (argsort stability as documented, argmin first minimum).  CPU-dispatch / thread-count independence follows from the stable order and is not executed.',
+             ref='3/C09'),
+ 'C10': dict(engine='X', technique='symbolic execution (CrossHair/z3) of the real consensus_taxon / find_matches / classify(strict=True): the solver enumerates every sequence of matched taxa / genome placement / distance class per forest shape, oracle is order-free',
+             text='For every forest within the bound, every sequence (any order, repeats) of matched taxa gives the order-free consensus of the property text; strict classify on every '
+                  'genome placement and distance class gives that consensus, the right failure flag, warning and primary match; find_matches is confirmed with symbolic thresholds.',
+             note='Trusted: CrossHair path exhaustion; concrete threshold patterns in the strict harness (matching with symbolic thresholds is decided separately); argmin contract stub.',
+             ref='3/C10'),
  'C13': dict(engine='X', technique='symbolic execution (CrossHair/z3) of the real calc_file_signatures with as_completed modelled as an arbitrary (symbolic) permutation and stub executors',
              text='For 1..4 (quick) / 5 (thorough) files, every completion permutation, every position of a failing file, every concurrency mode and executor ownership, '
                   'CrossHair confirms over all paths that entry i is the signature of file i, that failures propagate, and that executor lifetimes are respected.',
